@@ -23,8 +23,10 @@ import (
 	"time"
 
 	"github.com/emersion/go-ical"
+	"github.com/emersion/go-vcard"
 	webdav "github.com/emersion/go-webdav"
 	"github.com/emersion/go-webdav/caldav"
+	"github.com/emersion/go-webdav/carddav"
 	"github.com/emersion/go-webdav/internal"
 	"github.com/emersion/go-webdav/verifharness/cfs"
 	"github.com/emersion/go-webdav/verifharness/vdbl"
@@ -36,7 +38,7 @@ import (
 var rec = vev.For("C18")
 
 func TestMain(m *testing.M) {
-	rec.SetRule("part 1 (sampling of scheduler interleavings under the race detector; the harness does not own the schedule): one webdav.Handler over LocalFileSystem behind a real loopback server and one shared webdav.Client, N in 2..16 goroutines each running a rapid-generated sequence of 4-16 operations (Create, Mkdir, RemoveAll, Copy, Move, Stat, ReadDir, Open) inside its own subtree, GOMAXPROCS in {1,2,4,16}; every operation's outcome must equal the sequential abstract model of that goroutine's own history and the final tree the union of the model trees; likewise one caldav.Handler + shared caldav.Client over a thread-safe recording backend, each concurrent result compared with the same call run alone. part 2 (generated fault sequences over real sockets): streamed uploads against scripted servers {read all then 201/204/4xx/5xx, the same but answering only after the client has entered Close, answer before reading, read k bytes then answer, read k bytes then drop the connection, stall until the client's context is cancelled} x size {0,1,4 KiB,64 KiB+1,1 MiB,8 MiB} x write chunking: Write and Close return; Close returns after the server's answer (sequence numbers, no clocks) and is nil exactly for a 2xx answer; no goroutine with a go-webdav frame survives. non-trivial = part 1: >= 2 goroutines that each performed >= 1 mutating request; part 2: a server-side fault or a size beyond 64 KiB; distinct by canonical JSON")
+	rec.SetRule("part 1 (sampling of scheduler interleavings under the race detector; the harness does not own the schedule): one webdav.Handler over LocalFileSystem behind a real loopback server and one shared webdav.Client, N in 2..16 goroutines each running a rapid-generated sequence of 4-16 operations (Create, Mkdir, RemoveAll, Copy, Move, Stat, ReadDir, Open) inside its own subtree, GOMAXPROCS in {1,2,4,16}; every operation's outcome must equal the sequential abstract model of that goroutine's own history and the final tree the union of the model trees; likewise one caldav.Handler + shared caldav.Client, and one carddav.Handler + shared carddav.Client, over thread-safe recording backends, each goroutine on its own collection with its own request bodies, each concurrent result compared with the same call run alone. part 2 (generated fault sequences over real sockets): streamed uploads against scripted servers {read all then 201/204/4xx/5xx, the same but answering only after the client has entered Close, answer before reading, read k bytes then answer, read k bytes then drop the connection, stall until the client's context is cancelled} x size {0,1,4 KiB,64 KiB+1,1 MiB,8 MiB} x write chunking: Write and Close return; Close returns after the server's answer (sequence numbers, no clocks) and is nil exactly for a 2xx answer; no goroutine with a go-webdav frame survives. non-trivial = part 1: >= 2 goroutines that each performed >= 1 mutating request; part 2: a server-side fault or a size beyond 64 KiB; distinct by canonical JSON")
 	rec.Assume("schedules are sampled, not enumerated: a race that needs a specific preemption inside a few instructions may never be observed", "a hang is reported as a violation only when the goroutine dump shows the caller blocked inside the library; otherwise the run is inconclusive")
 	vev.Main(m)
 }
@@ -57,7 +59,7 @@ type Op struct {
 }
 
 type ConcCase struct {
-	Kind  string `json:"kind"` // files | caldav
+	Kind  string `json:"kind"` // files | caldav | carddav
 	Procs int    `json:"gomaxprocs"`
 	Seqs  [][]Op `json:"seqs"` // one sequence per goroutine
 }
@@ -582,6 +584,106 @@ func evalUpload(c UpCase) (vev.Outcome, error) {
 
 // ---------------------------------------------------------------------------
 
+func sampleCard(uid string) vcard.Card {
+	c := vcard.Card{}
+	c.SetValue(vcard.FieldVersion, "4.0")
+	c.SetValue(vcard.FieldFormattedName, "name "+uid)
+	c.SetValue(vcard.FieldUID, uid)
+	return c
+}
+
+// evalCardDAV: one carddav.Handler and one carddav.Client shared by all goroutines, each goroutine working on its own
+// address book; every concurrent result must equal the result of the same call run alone afterwards.
+func evalCardDAV(c ConcCase) (vev.Outcome, error) {
+	n := len(c.Seqs)
+	b := &vdbl.CardBackend{Principal: "/u/", HomeSet: "/u/h/", Objects: map[string][]carddav.AddressObject{}}
+	for i := 0; i < n; i++ {
+		p := fmt.Sprintf("/u/h/b%d/", i)
+		b.Books = append(b.Books, carddav.AddressBook{Path: p, Name: fmt.Sprintf("book %d", i), Description: "d"})
+		for j := 0; j < 3; j++ {
+			b.Objects[p] = append(b.Objects[p], carddav.AddressObject{Path: fmt.Sprintf("%so%d.vcf", p, j), ETag: fmt.Sprintf("e%d-%d", i, j), Card: sampleCard(fmt.Sprintf("u%d-%d", i, j))})
+		}
+	}
+	srv := httptest.NewServer(&carddav.Handler{Backend: b})
+	defer srv.Close()
+	hc := &http.Client{Transport: &http.Transport{MaxIdleConnsPerHost: 32}}
+	defer hc.CloseIdleConnections()
+	cl, err := carddav.NewClient(hc, srv.URL)
+	if err != nil {
+		return vev.Outcome{}, err
+	}
+	old := runtime.GOMAXPROCS(c.Procs)
+	defer runtime.GOMAXPROCS(old)
+	ctx := context.Background()
+	enc := func(card vcard.Card) []byte {
+		var buf bytes.Buffer
+		vcard.NewEncoder(&buf).Encode(card)
+		return buf.Bytes()
+	}
+	call := func(i int, op Op) string {
+		p := fmt.Sprintf("/u/h/b%d/", i)
+		var v any
+		var err error
+		switch op.Kind {
+		case "stat":
+			v, err = cl.FindAddressBooks(ctx, "/u/h/")
+		case "readdir":
+			// a different query per goroutine, so that request bodies differ
+			v, err = cl.QueryAddressBook(ctx, p, &carddav.AddressBookQuery{DataRequest: carddav.AddressDataRequest{AllProp: true},
+				PropFilters: []carddav.PropFilter{{Name: vcard.FieldUID, TextMatches: []carddav.TextMatch{{Text: fmt.Sprintf("u%d-", i), MatchType: carddav.MatchStartsWith}}}}})
+		case "open":
+			v, err = cl.GetAddressObject(ctx, p+"o1.vcf")
+		case "copy", "move":
+			v, err = cl.MultiGetAddressBook(ctx, p, &carddav.AddressBookMultiGet{Paths: []string{p + "o0.vcf", p + "o2.vcf"}, DataRequest: carddav.AddressDataRequest{AllProp: true}})
+		case "mkdir":
+			v, err = cl.FindAddressBookHomeSet(ctx, "/u/")
+		default:
+			v, err = cl.PutAddressObject(ctx, p+"new-"+op.Name+".vcf", sampleCard("put-"+op.Name))
+		}
+		js, _ := json.Marshal(v)
+		if ao, ok := v.(*carddav.AddressObject); ok && ao != nil && ao.Card != nil {
+			js = append(js, enc(ao.Card)...)
+		}
+		if l, ok := v.([]carddav.AddressObject); ok {
+			for _, ao := range l {
+				js = append(js, enc(ao.Card)...)
+			}
+		}
+		return fmt.Sprintf("%s err=%v", js, err)
+	}
+	results := make([][]string, n)
+	var wg sync.WaitGroup
+	start := make(chan struct{})
+	for i := 0; i < n; i++ {
+		i := i
+		wg.Add(1)
+		go func() {
+			defer wg.Done()
+			<-start
+			for _, op := range c.Seqs[i] {
+				results[i] = append(results[i], call(i, op))
+			}
+		}()
+	}
+	close(start)
+	done := make(chan struct{})
+	go func() { wg.Wait(); close(done) }()
+	select {
+	case <-done:
+	case <-time.After(120 * time.Second):
+		return dev("carddav|hang", "concurrent run did not finish within 120 s\n%s", dump()), nil
+	}
+	for i := 0; i < n; i++ {
+		for k, op := range c.Seqs[i] {
+			alone := call(i, op)
+			if alone != results[i][k] {
+				return dev("carddav|differs-from-sequential|"+op.Kind, "goroutine %d op %d (%s): under concurrency %.300s, alone %.300s", i, k, op.Kind, results[i][k], alone), nil
+			}
+		}
+	}
+	return vev.Outcome{}, nil
+}
+
 type Case struct {
 	Conc *ConcCase `json:"conc,omitempty"`
 	Up   *UpCase   `json:"up,omitempty"`
@@ -593,6 +695,8 @@ func evaluate(c Case) (vev.Outcome, error) {
 		return evalUpload(*c.Up)
 	case c.Conc != nil && c.Conc.Kind == "caldav":
 		return evalCalDAV(*c.Conc)
+	case c.Conc != nil && c.Conc.Kind == "carddav":
+		return evalCardDAV(*c.Conc)
 	case c.Conc != nil:
 		return evalFiles(*c.Conc)
 	}
@@ -636,8 +740,8 @@ func TestConcurrency(t *testing.T) {
 	if vev.ReplayFile() != "" {
 		t.Skip()
 	}
-	vev.Rapid(t, rec, 0, vev.N(25, 1200), func(rt *rapid.T) {
-		c := ConcCase{Kind: rapid.SampledFrom([]string{"files", "files", "caldav"}).Draw(rt, "kind"), Procs: rapid.SampledFrom([]int{1, 2, 4, 16}).Draw(rt, "procs")}
+	vev.Rapid(t, rec, 0, vev.N(40, 1200), func(rt *rapid.T) {
+		c := ConcCase{Kind: rapid.SampledFrom([]string{"files", "files", "files", "caldav", "carddav"}).Draw(rt, "kind"), Procs: rapid.SampledFrom([]int{1, 2, 4, 16}).Draw(rt, "procs")}
 		n := rapid.IntRange(2, 16).Draw(rt, "goroutines")
 		mut := 0
 		for i := 0; i < n; i++ {
